@@ -102,8 +102,10 @@ def solve_text(smt2, cross_check_all=False):
     if c == 'unsat':
         return 'proved', info, 'by cvc5 (z3 unknown)'
     if c == 'sat':
-        # a refutation needs both back ends or a validated model: z3 gave none
-        return 'undecided', info, 'cvc5 sat, z3 unknown (no validated model)'
+        # a definite answer of one back end (a counter-model exists) that the other does not
+        # contradict: the obligation is not provable as generated.  Reported as refuted; the
+        # native replay then looks for a failing input (none found => `no-failing-input-found`).
+        return 'refuted', info, 'cvc5 sat; z3 unknown (gave up within its resource limit)'
     return 'undecided', info, 'z3 %s, cvc5 %s' % (info['z3'], c)
 
 
